@@ -139,8 +139,12 @@ func NewAirWithMnemonic(label, mnemonic string) (*Air, error) {
 
 func (a *Air) dbPath() string { return filepath.Join(a.Dir, "db") }
 
-// open mirrors cmd/airgapped/main.go: NewMachine, SetEncryptionKey, (SetBaseSeed on first run),
-// InitKeys.
+// MnemonicEntries is how many times the operator runs `set_seed` with the mnemonic when a machine
+// is set up (1 = the documented procedure; 2 = the operator enters it twice).
+var MnemonicEntries = 1
+
+// open mirrors cmd/airgapped: NewMachine, the password prompt (SetEncryptionKey + InitKeys) and,
+// on a fresh database, the `set_seed` command (SetBaseSeed + GenerateKeys).
 func (a *Air) open(first bool) error {
 	m, err := airgapped.NewMachine(a.dbPath())
 	if err != nil {
@@ -148,13 +152,18 @@ func (a *Air) open(first bool) error {
 	}
 	m.SetResultFolder(a.Results)
 	m.SetEncryptionKey([]byte(Password))
-	if first {
-		if err := m.SetBaseSeed(a.Mnemonic); err != nil {
-			return err
-		}
-	}
 	if err := m.InitKeys(); err != nil {
 		return err
+	}
+	if first {
+		for i := 0; i < MnemonicEntries; i++ {
+			if err := m.SetBaseSeed(a.Mnemonic); err != nil {
+				return err
+			}
+			if err := m.GenerateKeys(); err != nil {
+				return err
+			}
+		}
 	}
 	a.M = m
 	return nil
